@@ -47,6 +47,8 @@ DIRECTED = [
     {"layout": "one", "n_ops": 1, "binding_style": "document", "op_style": None, "header": 1, "header_same_message": 0,
      "extra_headers": 2},
     {"layout": "one", "n_ops": 2, "binding_style": "rpc", "op_style": None, "header": 0, "extra_headers": 2, "out_header": 1},
+    {"layout": "one", "n_ops": 2, "binding_style": "document", "op_style": None, "header": 1, "header_same_message": 1,
+     "substring_names": 1, "extra_headers": 0},
     {"layout": "one", "n_ops": 1, "binding_style": "document", "op_style": None, "header": 1, "header_same_message": 1,
      "extra_headers": 1, "doc_two_parts": 1, "header_after_body": 1},
 ]
